@@ -344,6 +344,39 @@ func runC17(c *core.Ctx) {
 	}
 	// all four combinations covered
 	c.Instance("R3")
+	// ---- R6 a variant's own Close always closes the connection it wraps
+	c.Rule("R6", "a wrapper variant that declares Close closes the wrapped connection on every path (whatever its final flush returned)", 1)
+	nClose := 0
+	for _, v := range variants {
+		sel := types.NewMethodSet(types.NewPointer(v.t)).Lookup(v.t.Obj().Pkg(), "Close")
+		if sel == nil {
+			continue
+		}
+		obj, _ := sel.Obj().(*types.Func)
+		var cl *ssa.Function
+		if obj != nil {
+			cl = p.FuncOf(obj)
+		}
+		if cl == nil || cl.Blocks == nil || !p.InRepo(cl) {
+			continue // promoted from the connection itself
+		}
+		nClose++
+		c.Instance("R6")
+		c.FuncsSeen[p.QName(cl)] = true
+		q := &core.Query{P: p, MaxDepth: 2, Pred: func(x ssa.Instruction) bool {
+			cc := core.CallCommon(x)
+			if cc == nil || !cc.IsInvoke() || cc.Method.Name() != "Close" {
+				return false
+			}
+			return core.NamedIs(cc.Value.Type(), "net", "Conn")
+		}}
+		bad, path := q.MustPassBetween(nil, cl.Blocks[0], nil, core.IsNormalReturn, nil)
+		c.Check(bad == nil, "R6", "variant/"+v.t.Obj().Name()+"/Close/closes-conn", p.Pos(cl.Pos()), "every path of Close closes the wrapped connection", "the wrapper's Close can return without closing the wrapped connection (a failed final flush leaves the socket open: the read loop never ends, the peer is never told)", p.PathString(path, bad)...)
+	}
+	if nClose == 0 {
+		c.Instance("R6")
+		c.OK("R6", "variant/Close", "", "no variant declares its own Close")
+	}
 	c.Check(len(variants) >= 4, "R3", "NewTransport/variants", p.Pos(nt.Pos()), fmt.Sprintf("%d variants returned", len(variants)), fmt.Sprintf("NewTransport returns only %d variants (want one per buffering combination)", len(variants)))
 
 	// ---- R5
